@@ -89,7 +89,7 @@ SPEC = {
         "alloc = bytes requested with an input-dependent size (make/append/string conversion); fixed-size allocations per loop round are accounted by iters",
     ],
     "manifest": {
-        "text": "For every byte string and every chain of serializer.Deserializer primitives (incl. the callback-driven sequence/object/payload readers), every reader chunking and every stream Read* helper with every prefix width, and every JSON document against every target shape of MapDecode/JSONDecode: the call returns a value or an error and never panics (C02_deser_no_panic, C02_stream_no_panic, C02_json_no_panic; serix binary Decode over every schema: C02_no_panic), reports at most the bytes supplied (C02_deser_offset_le - the offset Done() reports, also next to an error -, C02_stream_consumed_le, C02_stream_bytesRead_le, C02_consumed_le), allocates at most K*len resp. 5*len + 16 KiB bytes with explicit K = 1 + nesting depth (C02_alloc_linear, C02_stream_alloc_linear; a length field above the remaining input allocates nothing: C02_oversized_length_allocates_nothing) and iterates at most K*(len+1) times when sequence elements have positive size (C02_iters_linear, C02_stream_iters_linear). KNOWN DEFECT of the tree (not repaired, reported as KNOWN-FINDING on every run): a sequence whose elements are ZERO bytes wide iterates, appends and allocates as often as its length prefix says (2^20 element decodes for 4 input bytes) - the iteration theorems carry the hypothesis `pos` precisely because of it (witness C02_zero_size_items_witness); zero-width MAP entries are bounded by the duplicate-key rejection and stay under the oracle. Shared state of a serix.API: regenerated synchronisation skeletons pin the lock kind of every accessor of the struct-field cache and the registries (C02_skeleton_*), and 300 fresh APIs per run are used for the first time by 8 goroutines at once in a child process (a runtime abort is the oracle failure `fatal`). JSONDecode of ANY text (not JSON, top-level null / array / scalar, nesting beyond the limit of encoding/json) returns a value or an error (C02_json_text_no_panic); the string decoders of numbers.go produce at most half as many bytes as the string has characters (C02_numbers_output_le); the rounds of SerializableOrderedMap.Decode are bounded by the input for every key width, zero-width keys included, because the second empty key is a duplicate (C02_omap_rounds_unconditional). Constants and the normalised bodies of 54 decoder functions are re-extracted from the working tree on every run and tied to the models (C02_facts_*), together with the table of every type assertion of map_decode.go: no assertion on decoded JSON is of the single-value form that panics (C02_facts_json_no_unchecked_assertion - the way the file panicked before 63f234d). Models re-validated against the working tree on every run: ~33 000 mutated/hostile inputs, kind-mutated JSON documents of 10 target types, raw JSON texts and strings, outcome class / consumed bytes / iteration counts / values compared line by line with the Lean driver, plus an independent Go oracle measuring panics, consumed bytes and TotalAlloc per call in an address-space-limited child process.",
+        "text": "For every byte string and every chain of serializer.Deserializer primitives (incl. the callback-driven sequence/object/payload readers), every reader chunking and every stream Read* helper with every prefix width, and every JSON document against every target shape of MapDecode/JSONDecode: the call returns a value or an error and never panics (C02_deser_no_panic, C02_stream_no_panic, C02_json_no_panic; serix binary Decode over every schema: C02_no_panic), reports at most the bytes supplied (C02_deser_offset_le - the offset Done() reports, also next to an error -, C02_stream_consumed_le, C02_stream_bytesRead_le, C02_consumed_le), allocates at most K*len resp. 5*len + 16 KiB bytes with explicit K = 1 + nesting depth (C02_alloc_linear, C02_stream_alloc_linear; a length field above the remaining input allocates nothing: C02_oversized_length_allocates_nothing) and iterates at most K*(len+1) times when sequence elements have positive size (C02_iters_linear, C02_stream_iters_linear). KNOWN DEFECT of the tree (not repaired, reported as KNOWN-FINDING on every run): a sequence whose elements are ZERO bytes wide iterates, appends and allocates as often as its length prefix says (2^20 element decodes for 4 input bytes) - the iteration theorems carry the hypothesis `pos` precisely because of it (witness C02_zero_size_items_witness); zero-width MAP entries are bounded by the duplicate-key rejection and stay under the oracle. Shared state of a serix.API: regenerated synchronisation skeletons pin the lock kind of every accessor of the struct-field cache and the registries (C02_skeleton_*), and 300 fresh APIs per run are used for the first time by 8 goroutines at once in a child process (a runtime abort is the oracle failure `fatal`). JSONDecode of ANY text (not JSON, top-level null / array / scalar, nesting beyond the limit of encoding/json) returns a value or an error (C02_json_text_no_panic); the string decoders of numbers.go produce at most half as many bytes as the string has characters (C02_numbers_output_le); the rounds of SerializableOrderedMap.Decode are bounded by the input for every key width, zero-width keys included, because the second empty key is a duplicate (C02_omap_rounds_unconditional). Constants and the normalised bodies of 54 decoder functions are re-extracted from the working tree on every run and tied to the models (C02_facts_*), together with the table of every type assertion of map_decode.go: no assertion on decoded JSON is of the single-value form that panics (C02_facts_json_no_unchecked_assertion - the way the file panicked before 63f234d). Models re-validated against the working tree on every run: ~43 000 mutated/hostile inputs, kind-mutated JSON documents of 11 target types, raw JSON texts and strings, every catalogue type and 30 random registered universes of the serix generator (binary under the resource oracle with every offset made hostile once, JSON under the no-panic oracle), outcome class / consumed bytes / iteration counts / values compared line by line with the Lean driver, plus an independent Go oracle measuring panics, consumed bytes and TotalAlloc per call in an address-space-limited child process.",
         "note": "Trusted: Lean kernel; the three hand-written models (tie = differential execution); Go library string syntaxes as modelled. static/pos hypotheses are about the calling program (unsupported prefix type, zero-size sequence elements), witnessed by C02_unsupported_prefix_witness and C02_zero_size_items_witness.",
         "technique": "Lean 4 proofs by mutual structural induction over read programs / target types with explicit cost invariants + differential correspondence + Go resource oracle",
     },
